@@ -70,7 +70,7 @@ func outcomeCases(flagged bool) ([]scen.Case, func(scen.Case) scen.Unit, func(sc
 		m := scen.Method{Name: "Op" + id, Verb: "POST", Route: scen.S("/op"), Ret: "string", Params: []scen.Param{{Name: "b", Type: "In" + id, In: "Body"}},
 			Body: "\trec.Call(\"C" + id + ".Op" + id + "\", \"none\", b)\n\treturn \"ok\", nil\n"}
 		ctl := scen.Controller{Name: "C" + id, Pkg: id, Prefix: scen.S("/" + id), Tag: scen.S("T" + id), Methods: []scen.Method{m}}
-		decl := "type Colour string\n\nconst (\n\tColourRed Colour = \"red\"\n\tColourBlue Colour = \"blue\"\n)\n\ntype In" + id + " struct {\n\tC Colour `json:\"c\" validate:\"required,colour_enum\"`\n}\n"
+		decl := "type Colour string\n\nconst (\n\tColourRed Colour = \"red\"\n\tColourBlue Colour = \"blue\"\n\tColourGte Colour = \">=\"\n\tColourAmp Colour = \"x&y's\"\n)\n\ntype In" + id + " struct {\n\tC Colour `json:\"c\" validate:\"required,colour_enum\"`\n}\n"
 		cases = append(cases, scen.Case{ID: id, Unit: scen.Unit{Controllers: []scen.Controller{ctl}, Decls: map[string]string{id: decl},
 			Imports: map[string][]string{id: rt.RtImports}},
 			Features: map[string]string{"family": "outcome", "outcome": "body-field-with-generated-enum-validator"}, Desc: map[string]any{"outcome": "body-field-with-generated-enum-validator", "controller": ctl, "decls": decl}})
@@ -79,7 +79,7 @@ func outcomeCases(flagged bool) ([]scen.Case, func(scen.Case) scen.Unit, func(sc
 	reqsFor := func(c scen.Case) []rt.Request {
 		if c.Features["outcome"] == "body-field-with-generated-enum-validator" {
 			var out []rt.Request
-			for i, b := range []string{`{"c":"red"}`, `{"c":"blue"}`, `{"c":"green"}`, `{"c":""}`, `{}`, `{"c":"Red"}`} {
+			for i, b := range []string{`{"c":"red"}`, `{"c":"blue"}`, `{"c":">="}`, `{"c":"x&y's"}`, `{"c":"&gt;="}`, `{"c":"green"}`, `{"c":""}`, `{}`, `{"c":"Red"}`} {
 				out = append(out, rt.Request{ID: fmt.Sprintf("%s#%d", c.ID, i), Verb: "POST", URL: "/" + c.ID + "/op", Body: b, ContentType: "application/json"})
 			}
 			return out
